@@ -71,6 +71,9 @@ def receiptText (ver : String) (t : Bytes) : String :=
 /-- ops: trusted | untrusted | build  <ver> <shape> <jsonlen> <type> <state_key or ~> <sender> <room_id>
     (fields hex; the three ops differ only in the entry point the harness drives): the class the property
     distinguishes, ok | refused | persistable, from the model and from the specification;
+    build_unsigned | trusted_setunsigned (same arguments): the bytes that make up <jsonlen> sit under `unsigned`
+    (proto-event's Unsigned on Build; SetUnsigned then CheckFields) — the model is the same `verdict` on the same sizes:
+    CheckFields measures `len(input.JSON())`, and the specification's limit is on the event's JSON;
     trusted_fine | untrusted_fine | build_fine: the error kind, ok | err:other | err:toolarge |
     err:toolarge-persistable, from the model only;
     untrusted_badhash[_fine] <ver> <shape> <jsonlen> <redactedlen> <type> <state_key or ~> <sender> <room_id>:
@@ -84,7 +87,8 @@ def handle (op : String) (args : Array String) : Option String :=
      | _ => some "bad-op") else
   let fine := op.endsWith "_fine"
   let base := if fine then (op.dropEnd 5).toString else op
-  if base != "trusted" && base != "untrusted" && base != "build" && base != "untrusted_badhash" then none else
+  if base != "trusted" && base != "untrusted" && base != "build" && base != "untrusted_badhash"
+      && base != "build_unsigned" && base != "trusted_setunsigned" then none else
   match args.toList with
   | [ver, shape, jl, rl, ty, sk, se, ro] =>
     -- untrusted_badhash: the event as received has `jl` bytes, its redacted form `rl`
@@ -113,7 +117,7 @@ def handle (op : String) (args : Array String) : Option String :=
       else
         let s := sizesOf n ty sk se ro
         if shapeOf s != shape then some "bad-shape-label" else
-        if base == "build" && s.create && p.roomCheck == .prefixOnly && !ro.isEmpty then
+        if (base == "build" || base == "build_unsigned") && s.create && p.roomCheck == .prefixOnly && !ro.isEmpty then
           some "skip:Build refuses any room ID on a create event of these room versions (an API contract, not a size decision)" else
         let v := if base == "untrusted" then verdictUntrusted p s n else verdict p s
         if fine then some v.show else
